@@ -21,7 +21,9 @@ META = dict(
         "past unimplemented keywords only under options.lenient; R3 the documented fall-backs are taken only "
         "under their option (oneOf -> anyOf under coerce_one_of / lenient); R4 the multipleOf intersection "
         "cannot overflow: Decimal::checked_lcm contains no unchecked multiplication and its failure is "
-        "propagated as a schema error."
+        "propagated as a schema error; R5 in gen_json_object every declared property name is reserved (pushed to "
+        "the taken-names list that the additionalProperties / patternProperties key lexemes exclude) on every path "
+        "through the property loop, including the arm that skips an unsatisfiable optional property."
     ),
     not_decided="that the generated grammar admits only valid instances (the semantics of every keyword combination)",
 )
@@ -194,6 +196,31 @@ def run(ctx):
                       "alternatives violates oneOf", site=poo.where(sites[0]))
         else:
             ctx.check(bool(opt), "C06-R3", "oneOf-coercion-guarded", "options consulted", "process_one_of no longer consults coerce_one_of/lenient", site=poo.where())
+
+    # ------------------------------------------------------------------ R5 every declared property name stays reserved
+    # In gen_json_object every name listed in properties/required is pushed (JSON-quoted) into the list of taken names —
+    # also when the property is skipped because its schema is unsatisfiable. That list is what the additionalProperties /
+    # patternProperties key lexemes exclude; a name that is not reserved can be emitted through those branches with a value
+    # its own schema forbids.
+    go = ctx.body(JC + "::gen_json_object")
+    nxt = [bi for bi, t in go.calls() if t["f"].get("def", "").endswith("::next") and "Chain" in t["f"].get("def", "")]
+    resv = [bi for bi, t in go.calls() if t["f"].get("def", "").endswith("Vec::<T, A>::push") and "json_dumps" in repr(go.expr(t["args"][1]))]
+    if ctx.floor("C06-R5", "property-name loop in gen_json_object", len(nxt), 1) and ctx.floor("C06-R5", "pushes of the quoted property name", len(resv), 1):
+        n = nxt[0]
+        some = []
+        for bi, e, targets, otherwise in go.switch_edges():
+            if e[0] == "discr" and e[1][0] == "call" and len(e[1]) > 3 and e[1][3] == n:
+                some = [t for v, t in targets if v == 1] or [otherwise]
+        bad = L.must_pass(go, some, resv, targets=[n]) if some else ["?"]
+        ctx.check(bool(some) and not bad, "C06-R5", "gen_json_object:every-name-reserved",
+                  "every loop iteration that continues reserves the quoted property name (also the skipped-unsatisfiable arm)",
+                  "gen_json_object has a path through the property loop that does not push the property name into the taken names: the key "
+                  "can then be produced by the additionalProperties/patternProperties branch with a value its own schema forbids",
+                  site=go.where(n))
+        # both reservation pushes go to the same list, and that list feeds the exclusion regex
+        tgt = set(L.root_local(go, go.expr(go.blocks[bi]["term"]["args"][0])) for bi in resv)
+        ctx.check(len(tgt) == 1, "C06-R5", "gen_json_object:one-reservation-list", "all reservations go to one list",
+                  "property names are reserved in %d different lists" % len(tgt), site=go.where(resv[0]))
 
     # ------------------------------------------------------------------ R4 multipleOf intersection cannot overflow
     lcm = ctx.body(NUM + "Decimal::checked_lcm")
